@@ -1,6 +1,7 @@
 package main
 
 import (
+	"go/constant"
 	"fmt"
 	"go/token"
 	"go/types"
@@ -187,133 +188,92 @@ func ruleGramAllMatch(c *Ctx) []*Obligation {
 	o := newObl("GRAM.allmatch")
 	fn := c.MustFunc(pkgParsers, "ExpressionParser", "matchTokensWithTypes")
 	key := c.FuncKey(fn) + "#mismatch-forces-false"
-	// the element comparison: <token>.Type() == types[i] (non-constant right side)
-	var cmp *ssa.BinOp
-	for _, b := range fn.Blocks {
-		for _, in := range b.Instrs {
-			bo, ok := in.(*ssa.BinOp)
-			if !ok || (bo.Op != token.EQL && bo.Op != token.NEQ) {
-				continue
-			}
-			for _, side := range []ssa.Value{bo.X, bo.Y} {
-				if call, ok := side.(*ssa.Call); ok {
-					if _, isT := c.callTo(call, pkgParsers, "ExpressionToken", "Type"); isT {
-						cmp = bo
-					}
+	// the multi-token matcher evaluated abstractly: a pattern of 1..3 token types against 0..3 remaining
+	// tokens, each matching or not: the result is true exactly when the whole pattern is there and every
+	// element matches, and the cursor advances by the pattern length exactly then
+	bad, undec, runs := "", "", 0
+	for n := 1; n <= 3 && bad == ""; n++ {
+		for r := 0; r <= 3 && bad == ""; r++ {
+			for bits := 0; bits < 1<<r && bad == ""; bits++ {
+				runs++
+				ai := &absInterp{c: c, fn: fn, env: map[ssa.Value]aiVal{}, fields: map[string]aiVal{}}
+				pat := aiVal{kind: "list"}
+				for i := 0; i < n; i++ {
+					pat.tup = append(pat.tup, aiInt(int64(100+i)))
 				}
-			}
-		}
-	}
-	if cmp == nil {
-		o.undecided(key, c.Pos(fn.Pos()), "element comparison not found in the matcher")
-		return o.list
-	}
-	mismatchTruth := cmp.Op == token.NEQ // value of cmp when the element does NOT match
-	// loop header: a block that dominates cmp's block and is reachable from it
-	var header *ssa.BasicBlock
-	r := reachableBlocks(cmp.Block(), nil)
-	for d := cmp.Block(); d != nil; d = d.Idom() {
-		for _, p := range d.Preds {
-			if r[p] && d.Dominates(p) {
-				header = d
-			}
-		}
-		if header != nil {
-			break
-		}
-	}
-	if header == nil {
-		// no loop: straight-line comparisons; accept if every comparison result feeds the return through control flow
-		o.ok(key, c.Pos(cmp.Pos()), "matcher has no loop; single comparison decides")
-		return o.list
-	}
-	// explore from the comparison assuming a mismatch: branches on cmp itself (or !cmp) take the mismatch side only
-	seen := map[*ssa.BasicBlock]bool{}
-	reachesHeader := false
-	var walk func(b *ssa.BasicBlock, first bool)
-	walk = func(b *ssa.BasicBlock, first bool) {
-		if !first {
-			if b == header {
-				reachesHeader = true
-				return
-			}
-			if seen[b] {
-				return
-			}
-			seen[b] = true
-		}
-		if ifi, ok := b.Instrs[len(b.Instrs)-1].(*ssa.If); ok {
-			g := guard{Cond: ifi.Cond, Truth: true}
-			v, pos := g.atom()
-			if v == ssa.Value(cmp) {
-				// cond is cmp (pos=true) or !cmp (pos=false); when mismatching, cmp == mismatchTruth
-				condVal := mismatchTruth == pos
-				if condVal {
-					walk(b.Succs[0], false)
-				} else {
-					walk(b.Succs[1], false)
+				toks := aiVal{kind: "list"}
+				for i := 0; i < r; i++ {
+					toks.tup = append(toks.tup, aiSym(fmt.Sprintf("tok%d", i)))
 				}
-				return
-			}
-		}
-		for _, s := range b.Succs {
-			walk(s, false)
-		}
-	}
-	walk(cmp.Block(), true)
-	if !reachesHeader {
-		o.ok(key, c.Pos(cmp.Pos()), "on a mismatch control leaves the loop (break/return): no later element can overwrite the verdict")
-		return o.list
-	}
-	// a further iteration can run after a mismatch: accepted only if the accumulator is conjoined with its previous value
-	for _, in := range header.Instrs {
-		phi, ok := in.(*ssa.Phi)
-		if !ok {
-			break
-		}
-		if !types.Identical(phi.Type().Underlying(), types.Typ[types.Bool]) {
-			continue
-		}
-		for i, e := range phi.Edges {
-			pred := header.Preds[i]
-			if !header.Dominates(pred) {
-				continue // not a back edge
-			}
-			if e == ssa.Value(cmp) {
-				o.bad(key, c.Pos(cmp.Pos()), "the accumulator is overwritten with each element's comparison and the loop continues after a mismatch: only the last element decides (e.g. 'a foo LIKE b' is matched as NOT LIKE)")
-				return o.list
-			}
-			if p2, ok := e.(*ssa.Phi); ok {
-				hasFalse, hasCmp, guardedByAcc := false, false, false
-				for j, e2 := range p2.Edges {
-					if k, ok := e2.(*ssa.Const); ok && k.Value != nil && k.Value.String() == "false" {
-						hasFalse = true
-						// the false edge must come from a test of the accumulator
-						pb := p2.Block().Preds[j]
-						if ifi, ok := pb.Instrs[len(pb.Instrs)-1].(*ssa.If); ok && ifi.Cond == ssa.Value(phi) {
-							guardedByAcc = true
+				if len(fn.Params) < 2 {
+					o.undecided(key, c.Pos(fn.Pos()), "unexpected signature")
+					return o.list
+				}
+				ai.env[fn.Params[1]] = pat
+				ai.fields["initialTokens"] = toks
+				ai.fields["currentTokenIndex"] = aiInt(0)
+				ai.inline = func(g *ssa.Function) bool { return recvNamedFn(g) == "ExpressionParser" }
+				ai.call = func(ai *absInterp, call *ssa.Call) (aiVal, bool) {
+					f := calleeObj(call.Common())
+					if f != nil && recvNamed(f) == "ExpressionToken" && f.Name() == "Type" {
+						var i int
+						if v := ai.get(call.Common().Args[0]); v.kind == "sym" {
+							if _, err := fmt.Sscanf(v.s, "tok%d", &i); err == nil {
+								if bits&(1<<i) != 0 && i < n {
+									return aiInt(int64(100 + i)), true // matches its pattern element
+								}
+								return aiInt(int64(900 + i)), true
+							}
 						}
 					}
-					if e2 == ssa.Value(cmp) {
-						hasCmp = true
+					return aiVal{}, false
+				}
+				out := ai.run(fn.Blocks[0], nil, 0)
+				desc := func() string {
+					var ms []string
+					for i := 0; i < r; i++ {
+						ms = append(ms, fmt.Sprint(bits&(1<<i) != 0 && i < n))
+					}
+					return fmt.Sprintf("pattern of %d type(s), %d token(s) left, element matches [%s]", n, r, strings.Join(ms, " "))
+				}
+				if out.kind == "panic" {
+					bad = "the matcher indexes past the last token (" + out.why + ") with " + desc()
+					continue
+				}
+				if out.kind != "return" || len(out.ret) != 1 || out.ret[0].kind != "bool" {
+					undec = "matchTokensWithTypes: " + out.why
+					continue
+				}
+				want := r >= n
+				for i := 0; i < n && want; i++ {
+					if bits&(1<<i) == 0 {
+						want = false
 					}
 				}
-				if hasFalse && hasCmp && guardedByAcc {
-					o.ok(key, c.Pos(cmp.Pos()), "accumulator is conjoined with its previous value (acc && cmp)")
-					return o.list
+				cur := ai.fields["currentTokenIndex"]
+				wantCur := int64(0)
+				if want {
+					wantCur = int64(n)
 				}
-				if hasCmp {
-					o.bad(key, c.Pos(cmp.Pos()), "after a mismatch the loop continues and the accumulator can become true again")
-					return o.list
+				switch {
+				case out.ret[0].b != want:
+					bad = fmt.Sprintf("the matcher answers %v for a %s: a token sequence that is not the operator (a mismatching or missing element) is accepted as it, or the operator is not recognised", out.ret[0].b, desc())
+				case cur.kind != "int" || cur.n != wantCur:
+					bad = fmt.Sprintf("the matcher leaves the cursor at %s instead of %d for a %s", aiRender(cur), wantCur, desc())
 				}
 			}
 		}
 	}
-	o.undecided(key, c.Pos(cmp.Pos()), "a later iteration can run after a mismatch and the accumulator shape is not one of the enumerated idioms")
+	switch {
+	case bad != "":
+		o.bad(key, c.Pos(fn.Pos()), bad)
+	case undec != "":
+		o.undecided(key, c.Pos(fn.Pos()), undec)
+	default:
+		o.ok(key, c.Pos(fn.Pos()), fmt.Sprintf("%d abstract runs: true exactly for a complete, fully matching pattern, and the cursor advances exactly then", runs))
+	}
 	return o.list
 }
-
-// ---- GRAM.leftover ----------------------------------------------------------------------------------
 
 func ruleGramLeftover(c *Ctx) []*Obligation {
 	o := newObl("GRAM.leftover")
@@ -671,49 +631,174 @@ func ruleGramConsume(c *Ctx) []*Obligation {
 
 // ---- GRAM.unknown -----------------------------------------------------------------------------------
 
+// globalLiteral: the value of a never-reassigned package-level slice variable initialised with a
+// composite literal of constants, as an abstract list.
+func (c *Ctx) globalLiteral(g *ssa.Global) (aiVal, bool) {
+	if g.Pkg == nil || c.relPkg(g.Pkg.Pkg) == "" || !c.globalNeverStored(g) {
+		return aiVal{}, false
+	}
+	elts, info, _ := c.packageVarLiteral(c.relPkg(g.Pkg.Pkg), g.Name())
+	if elts == nil || info == nil {
+		return aiVal{}, false
+	}
+	lst := aiVal{kind: "list"}
+	for _, e := range elts {
+		tv, ok := info.Types[e]
+		if !ok || tv.Value == nil {
+			return aiVal{}, false
+		}
+		switch tv.Value.Kind() {
+		case constant.String:
+			lst.tup = append(lst.tup, aiStr(constant.StringVal(tv.Value)))
+		case constant.Int:
+			n, _ := constant.Int64Val(tv.Value)
+			lst.tup = append(lst.tup, aiInt(n))
+		default:
+			return aiVal{}, false
+		}
+	}
+	return lst, true
+}
+
 func ruleGramUnknown(c *Ctx) []*Obligation {
 	o := newObl("GRAM.unknown")
 	fn := c.MustFunc(pkgParsers, "ExpressionParser", "completeLexicalAnalysis")
 	key := c.FuncKey(fn) + "#append-only-classified"
-	n := 0
-	for _, ci := range allCalls(fn) {
-		cc, ok := c.callTo(ci, pkgParsers, "", "NewExpressionToken")
+	tt := map[string]int64{}
+	for _, n := range []string{"Unknown", "Comment", "Whitespace", "Word", "Keyword", "Symbol", "Integer", "Float", "Quoted"} {
+		v, ok := c.constByName("tokenizers", n)
 		if !ok {
-			continue
+			panic(anchorError("token type " + n + " not found"))
 		}
-		n++
-		typ := cc.Args[0]
-		good := false
-		for _, g := range guardsAt(ci.Block()) {
-			v, truth := g.atom()
-			bo, ok := v.(*ssa.BinOp)
-			if !ok || bo.X != typ {
-				continue
-			}
-			if k, ok := constInt(bo.Y); ok && k == 0 && ((bo.Op == token.EQL && !truth) || (bo.Op == token.NEQ && truth)) {
-				// and the other edge returns an error
-				other := g.If.Block().Succs[0]
-				if !truth == false {
-					other = g.If.Block().Succs[1]
-				}
-				if truth {
-					other = g.If.Block().Succs[1]
-				} else {
-					other = g.If.Block().Succs[0]
-				}
-				if ret, ok := other.Instrs[len(other.Instrs)-1].(*ssa.Return); ok && len(ret.Results) == 1 && !isNilConst(ret.Results[0]) {
-					good = true
-				}
-			}
+		tt[n] = v
+	}
+	et := func(n string) int64 {
+		v, ok := c.constByName(pkgParsers, n)
+		if !ok {
+			panic(anchorError("expression token type " + n + " not found"))
 		}
-		if good {
-			o.ok(key, c.Pos(ci.Pos()), "token appended only under tokenType != Unknown; the Unknown edge returns an error")
-		} else {
-			o.bad(key, c.Pos(ci.Pos()), "a token can be appended to the initial list although its classification is Unknown (or the Unknown path no longer returns an error)")
+		return v
+	}
+	// the lexical pass evaluated abstractly for a single input token of each kind: what is appended to
+	// the token list, or which error is returned
+	run := func(typ int64, text aiVal) (appended []int64, errCode string, opaque string) {
+		ai := &absInterp{c: c, fn: fn, env: map[ssa.Value]aiVal{}, fields: map[string]aiVal{}}
+		ai.fields["originalTokens"] = aiVal{kind: "list", tup: []aiVal{aiSym("tok0")}}
+		ai.fields["initialTokens"] = aiVal{kind: "list"}
+		ai.inline = func(g *ssa.Function) bool {
+			return (recvNamedFn(g) == "ExpressionParser" || (g.Signature.Recv() == nil && c.relPkg(g.Pkg.Pkg) == pkgParsers)) && g.Name() != "NewExpressionToken"
+		}
+		ai.cmp = func(a, b aiVal) (bool, bool) {
+			if (a.kind == "sym" && b.kind == "str") || (a.kind == "str" && b.kind == "sym") {
+				return false, true // some text that is none of the constants
+			}
+			return false, false
+		}
+		ai.load = func(ai *absInterp, addr ssa.Value) (aiVal, bool) {
+			if g, ok := addr.(*ssa.Global); ok {
+				return c.globalLiteral(g)
+			}
+			return aiVal{}, false
+		}
+		ai.call = func(ai *absInterp, call *ssa.Call) (aiVal, bool) {
+			cc := call.Common()
+			f := calleeObj(cc)
+			if f == nil {
+				return aiVal{}, false
+			}
+			switch {
+			case recvNamed(f) == "Token" && c.relPkg(f.Pkg()) == "tokenizers":
+				switch f.Name() {
+				case "Type":
+					return aiInt(typ), true
+				case "Value":
+					return text, true
+				}
+				return aiSym("pos"), true
+			case f.Pkg() != nil && f.Pkg().Path() == "strings" && f.Name() == "ToUpper":
+				a := ai.get(cc.Args[0])
+				if a.kind == "str" {
+					return aiStr(strings.ToUpper(a.s)), true
+				}
+				return a, true
+			case f.Name() == "NewExpressionToken":
+				if t := ai.get(cc.Args[0]); t.kind == "int" {
+					return aiVal{kind: "sym", s: "exprtoken", n: t.n}, true
+				}
+				return aiSym("exprtoken-of-unknown-type"), true
+			case c.isErrorCtor(f):
+				code := "?"
+				if sv := ai.get(cc.Args[1]); sv.kind == "str" {
+					code = sv.s
+				}
+				return aiSym("err:" + code), true
+			}
+			return aiVal{}, false
+		}
+		out := ai.run(fn.Blocks[0], nil, 0)
+		if out.kind != "return" || len(out.ret) != 1 {
+			return nil, "", "completeLexicalAnalysis: " + out.why
+		}
+		if r := out.ret[0]; r.kind == "sym" && strings.HasPrefix(r.s, "err:") {
+			return nil, strings.TrimPrefix(r.s, "err:"), ""
+		} else if r.kind != "nil" {
+			return nil, "", "the returned error is outside the model"
+		}
+		l := ai.fields["initialTokens"]
+		if l.kind != "list" {
+			return nil, "", "the token list is not kept as a list the model can follow"
+		}
+		for _, v := range l.tup {
+			if v.s != "exprtoken" {
+				return nil, "", "a token of undetermined type is appended"
+			}
+			appended = append(appended, v.n)
+		}
+		return appended, "", ""
+	}
+	type cs struct {
+		name    string
+		typ     int64
+		text    aiVal
+		wantErr string
+		want    []int64
+		what    string
+	}
+	cases := []cs{
+		{"a character the tokenizer could not classify", tt["Unknown"], aiSym("text"), "UNKNOWN_SYMBOL", nil, "is not rejected with UNKNOWN_SYMBOL (it is dropped or passed on)"},
+		{"a comment", tt["Comment"], aiSym("text"), "", nil, "is not skipped"},
+		{"white space", tt["Whitespace"], aiSym("text"), "", nil, "is not skipped"},
+		{"a word", tt["Word"], aiSym("text"), "", []int64{et("Variable")}, "does not become a Variable token"},
+		{"a symbol that is no operator", tt["Symbol"], aiSym("text"), "UNKNOWN_SYMBOL", nil, "is not rejected with UNKNOWN_SYMBOL"},
+		{"the symbol +", tt["Symbol"], aiStr("+"), "", []int64{et("Plus")}, "does not become a Plus token"},
+		{"the keyword true", tt["Keyword"], aiStr("true"), "", []int64{et("Constant")}, "does not become a Constant token"},
+		{"the keyword and", tt["Keyword"], aiStr("and"), "", []int64{et("And")}, "does not become an And token"},
+		{"an integer literal", tt["Integer"], aiSym("text"), "", []int64{et("Constant")}, "does not become a Constant token"},
+		{"a quoted string", tt["Quoted"], aiSym("text"), "", []int64{et("Constant")}, "does not become a Constant token"},
+	}
+	bad, undec := "", ""
+	for _, k := range cases {
+		got, errCode, opaque := run(k.typ, k.text)
+		switch {
+		case opaque != "":
+			undec = opaque
+		case errCode != k.wantErr || fmt.Sprint(got) != fmt.Sprint(k.want):
+			if bad == "" {
+				res := fmt.Sprintf("appends token type(s) %v", got)
+				if errCode != "" {
+					res = "returns " + errCode
+				}
+				bad = fmt.Sprintf("%s %s (the lexical pass %s)", k.name, k.what, res)
+			}
 		}
 	}
-	if n == 0 {
-		o.bad(key, c.Pos(fn.Pos()), "lexical pass no longer builds expression tokens")
+	switch {
+	case bad != "":
+		o.bad(key, c.Pos(fn.Pos()), bad)
+	case undec != "":
+		o.undecided(key, c.Pos(fn.Pos()), undec)
+	default:
+		o.ok(key, c.Pos(fn.Pos()), fmt.Sprintf("%d abstract runs: unclassifiable input is rejected, comments and white space are skipped, everything else is classified", len(cases)))
 	}
 	return o.list
 }
